@@ -39,10 +39,12 @@ class BlockDiagonalOperator(EndomorphicOperator):
         self._ops = tuple(operators[key] if key in operators else None for key in domain.keys())
         self._capability = self._all_ops
 
-        self._dtype = {kk: oo.sampling_dtype for kk, oo in operators.items()}
+        self._dtype = {kk: getattr(oo, "sampling_dtype", None) for kk, oo in operators.items()}
         if all(vv is None for vv in self._dtype.values()):
             self._dtype = None
-        check_dtype_or_none(self._dtype, self._domain)
+        else:
+            for vv in self._dtype.values():
+                check_dtype_or_none(vv)
 
         for op in self._ops:
             if op is not None:
@@ -84,15 +86,26 @@ class BlockDiagonalOperator(EndomorphicOperator):
 
     def _combine_chain(self, op):
         check_object_identity(self._domain, op._domain)
-        res = {key: v1(v2)
-               for key, v1, v2 in zip(self._domain.keys(), self._ops, op._ops)}
+        # missing entries (None) are unity operators
+        res = {}
+        for key, v1, v2 in zip(self._domain.keys(), self._ops, op._ops):
+            if v1 is None and v2 is None:
+                continue
+            res[key] = v2 if v1 is None else (v1 if v2 is None else v1(v2))
         return BlockDiagonalOperator(self._domain, res)
 
     def _combine_sum(self, op, selfneg, opneg):
         from ..operators.sum_operator import SumOperator
         check_object_identity(self._domain, op._domain)
-        res = {key: SumOperator.make([v1, v2], [selfneg, opneg])
-               for key, v1, v2 in zip(self._domain.keys(), self._ops, op._ops)}
+        from .scaling_operator import ScalingOperator
+        # missing entries (None) are unity operators
+        res = {}
+        for key, v1, v2 in zip(self._domain.keys(), self._ops, op._ops):
+            if v1 is None:
+                v1 = ScalingOperator(self._domain[key], 1.)
+            if v2 is None:
+                v2 = ScalingOperator(self._domain[key], 1.)
+            res[key] = SumOperator.make([v1, v2], [selfneg, opneg])
         return BlockDiagonalOperator(self._domain, res)
 
     def __repr__(self):
